@@ -448,7 +448,8 @@ def build(spec, model=None, **kw):
 def _build(spec, model=None, holder=None, order_seed=None, codes=None, ckey_map=None, solve=True, ext_first=None,
           max_iter=3000, unused_ext=False, tol=None, order_perm=None, codes_after_first_country=False,
            query_zone=False, interleave_model=False, region_default_currency=False, run_via_steps=False,
-           mutate_returned_lists=False, dup_country_attempts=False):
+           mutate_returned_lists=False, dup_country_attempts=False, overwrite_currency_member=False,
+           log_info_after_every_country=False, extra_rule=None):
     """Build (and solve) the model described by spec with the REAL classes.
 
     order_seed: None = canonical declaration order; int = a random linear extension per country.
@@ -511,6 +512,12 @@ def _build(spec, model=None, holder=None, order_seed=None, codes=None, ckey_map=
                 country = cls(mod, ccode, 'Country ' + ccode, currency=z['cur'])
             b.countries[ck] = country
             b.zone_of[ck] = z['cur']
+            if overwrite_currency_member:
+                # caller code writes another registered currency's code into the Country.Currency data member after
+                # construction; documented as having no effect (zone membership defines the currency)
+                curs = [zz['cur'] for zz in spec['zones']]
+                country.Currency = curs[(curs.index(z['cur']) + 1) % len(curs)]
+                b.currency_members_overwritten = getattr(b, 'currency_members_overwritten', 0) + (country.Currency != z['cur'])
             if dup_country_attempts:
                 # a get-or-create helper of the caller tries to create the country again (another currency); the package
                 # refuses the duplicate and the caller carries on with the same model
@@ -629,6 +636,10 @@ def _build(spec, model=None, holder=None, order_seed=None, codes=None, ckey_map=
                 other = Model()
                 oc = Country(other, 'ZZ', 'unrelated', currency='ZZZ')
                 Household(oc, 'HH', 'unrelated household')
+            if log_info_after_every_country:
+                # the public diagnostic dump is called every time a country has been put together
+                mod.LogInfo()
+                b.log_info_calls = getattr(b, 'log_info_calls', 0) + 1
             if codes_after_first_country and not getattr(b, '_early_codes_done', False):
                 # a user dumps / inspects the model mid-construction (Model.LogInfo() does this): full codes are
                 # generated while the model has fewer countries than it will end up with
@@ -644,6 +655,16 @@ def _build(spec, model=None, holder=None, order_seed=None, codes=None, ckey_map=
     # ---- wiring (after all declarations)
     for w in wiring:
         w()
+    if extra_rule is not None:
+        # a reporting variable written with local names only; 'shared': ONE Equation object is handed to the households of every
+        # economy, 'own': every household gets an Equation object of its own
+        from sfc_models.equation import Equation as _Eq
+        mk = lambda: _Eq('SAVE_RULE', 'saving rule (reporting only)', '0.25*F + 0.125*INC')
+        one = mk()
+        for (ck_, role_), sec_ in sorted(S.items(), key=lambda kv: kv[0]):
+            if role_ == 'HH':
+                sec_.AddVariableFromEquation(one if extra_rule == 'shared' else mk())
+                b.extra_rule_holders = getattr(b, 'extra_rule_holders', 0) + 1
     ext = mod.ExternalSector
     for z in spec['zones']:
         g = z['gov']
